@@ -232,7 +232,7 @@ func TestC41(t *testing.T) {
 			}
 		}
 	})
-	if evid.ReplayFile() == "" {
+	if !replaying() {
 		rec.RequireClasses(t, "value/Type", "value/Capability", "value/Dictionary", "value/Struct", "value/Enum", "value/InclusiveRange",
 			"value/Path", "value/Function", "type/recursive", "type/Intersection", "type/Function", "type/Reference", "mutant/accepted", "mutant/rejected")
 	}
